@@ -8,7 +8,6 @@ use crate::oracle::serve::Finding;
 use crate::report::{hash_of, par_for, threads, Run, Stats, Tier};
 use crate::vbuf::content_vec;
 use bytes::Bytes;
-use futures_core::Stream;
 use http::HeaderMap;
 use http_body::Body as _;
 use http_serve::{BoxError, ChunkedReadFile, Entity};
@@ -18,7 +17,6 @@ use std::io::Write as _;
 use std::os::unix::fs::MetadataExt;
 use std::panic::{catch_unwind, AssertUnwindSafe};
 use std::path::{Path, PathBuf};
-use std::pin::Pin;
 use std::sync::atomic::AtomicUsize;
 use std::sync::Arc;
 use std::task::{Context, Poll, Waker};
@@ -194,7 +192,7 @@ fn etag_ok(e: &[u8]) -> bool {
 
 pub fn run_c18(run: &mut Run) -> Stats {
     let tier = run.tier;
-    let sizes: Vec<u64> = tier.pick(vec![0, 1, 65_535, 65_536, 65_537, 131_072], vec![0, 1, 65_535, 65_536, 65_537, 131_072, 200_001]);
+    let sizes: Vec<u64> = tier.pick(vec![0, 1, 65_535, 65_536, 65_537, 131_072, 200_001], vec![0, 1, 2, 65_535, 65_536, 65_537, 131_071, 131_072, 131_073, 200_001, 262_144]);
     run.rule = "file sizes x every range with start and end in {0, 1, k*65536-1, k*65536, k*65536+1, len-1, len} (start <= end; includes empty and whole) read through get_range; for the fault part truncation to every length in {0, start, start+1, read boundaries in range +-1, end-1} (and, thorough, growth) applied before poll j for every j up to the number of chunks + 1; each range also served through serve() with a Range header (single range) and one two-part multipart per file. Oracle: std::fs as reference -- no truncation: chunks non-empty, concatenation == file bytes, clean end; truncated below the range end: error within a bounded number of polls, never a clean short end, delivered bytes still the original content; len/last_modified == metadata at construction and unchanged later; ETag a valid strong tag, equal across instances/clones of the unmodified file, different after append, mtime +1s, mtime +1ns (if the file system keeps ns), replacement by an identical copy; directories and character devices refused. non-trivial = distinct (size, range, fault) streams".into();
     run.bounds = json!({"sizes": sizes, "read_size_assumed": "none (only non-emptiness and the total are asserted)"});
     run.assumptions.push("std::fs on the sandbox file system is the reference; single-threaded driver, truncation enumerated as a fault point between polls".into());
@@ -248,7 +246,7 @@ pub fn run_c18(run: &mut Run) -> Stats {
                                 faults.push(Fault::Truncate { to, before_poll: j });
                             }
                         }
-                        if tier == Tier::Thorough || len <= 65_537 {
+                        {
                             for j in 0..=nchunks {
                                 faults.push(Fault::Grow { by: 70_000, before_poll: j });
                             }
@@ -512,7 +510,7 @@ fn lexical_reject(p: &str) -> bool {
 
 pub fn run_c19(run: &mut Run) -> Stats {
     let tier = run.tier;
-    let kmax = tier.pick(3, 4);
+    let kmax = tier.pick(3, 5);
     run.rule = format!("every path of 1..{kmax} segments over {{a, sub, .., ., ..., ..a, a.., '', secret}} joined by '/', with {{no, leading, trailing, both}} extra slash, with a NUL inserted at every byte position (and none), x Accept-Encoding in {{absent, gzip, gzip;q=0, identity;q=1 gzip;q=0.5, *, br gzip;q=0.001}} x auto_gzip on/off, against a tree with plain files, .gz siblings, a .gz directory, names made of dots, and a `secret` file outside the base. Oracle: lexical rule (leading '/', NUL, '..' segment) => Err(InvalidInput); otherwise (device, inode) of the returned node == std::fs::metadata(base/path) -- or of base/path.gz when auto_gzip && the independent evaluator prefers gzip && that sibling exists and is not a directory -- and the same error kind when std fails; the inode must lie inside the base; encoding()/add_encoding_headers report gzip exactly when substituted and Vary exactly when auto_gzip. non-trivial = distinct (path, Accept-Encoding, auto_gzip)");
     run.bounds = json!({"max_segments": kmax, "segments": SEGS, "accept_encodings": AES.len()});
     run.assumptions.push("std::fs on the sandbox file system is the reference; no symlinks in the tree (the crate documents that it does not check them)".into());
@@ -553,7 +551,7 @@ pub fn run_c19(run: &mut Run) -> Stats {
         for (pi, p0) in paths[lo..(lo + chunk).min(paths.len())].iter().enumerate() {
             // NUL variants: none + every byte position (incl. the end)
             let mut variants: Vec<String> = vec![p0.clone()];
-            let nul_step = if tier == Tier::Quick && p0.len() > 6 { 3 } else { 1 };
+            let nul_step = 1;
             for pos in (0..=p0.len()).step_by(nul_step) {
                 let mut v = p0.clone();
                 v.insert(pos, '\0');
